@@ -5,6 +5,7 @@ import (
 	"os"
 	"path/filepath"
 	"runtime"
+	"sync/atomic"
 	"testing"
 
 	"github.com/cockroachdb/pebble"
@@ -62,13 +63,16 @@ func runOne(u Univ, cfg Config, prof Profile, seed uint64, steps int, path strin
 		return 0, err
 	}
 	defer t.Close()
-	fs := vfs.NewMem()
+	var openFiles atomic.Int64
+	fs := countFS{FS: vfs.NewMem(), open: &openFiles}
+	baseGoroutines := runtime.NumGoroutine()
 	r := NewRunner(u, cfg, fs, "db", t)
 	if err := r.Open(); err != nil {
 		r.fail(err)
 		return t.N, err
 	}
 	g := NewGen(r, prof, seed)
+	g.noMerge = seed%2 == 0
 	func() {
 		defer func() {
 			if p := recover(); p != nil {
@@ -84,13 +88,31 @@ func runOne(u Univ, cfg Config, prof Profile, seed uint64, steps int, path strin
 		g.afterMaint()
 		r.Exec(Ev{"op": "scan", "src": 0, "cls": prof.LatestCls})
 	}
-	base := runtime.NumGoroutine()
-	_ = base
+	if r.Fatal == nil {
+		// what the physical store looks like (evidence for C44: were values really separated?)
+		nb, ns := 0, 0
+		if ls, err := r.FS.List(r.Dir); err == nil {
+			for _, f := range ls {
+				switch filepath.Ext(f) {
+				case ".blob":
+					nb++
+				case ".sst":
+					ns++
+				}
+			}
+		}
+		t.Emit(Ev{"op": "note", "blobfiles": nb, "ssts": ns, "cfg": cfg.Name})
+	}
 	cerr := r.CloseAll()
 	if r.Fatal == nil {
-		ev := Ev{"op": "closedb", "ok": cerr == nil}
+		// C47: after Close nothing may be left behind: goroutines started by the DB, open
+		// files/locks on the filesystem
+		ev := Ev{"op": "closedb", "ok": cerr == nil, "goroutines": 0, "openfiles": 0}
 		if cerr != nil {
 			ev["err"] = cerr.Error()
+		} else {
+			ev["goroutines"] = settleGoroutines(baseGoroutines)
+			ev["openfiles"] = int(openFiles.Load())
 		}
 		t.Emit(ev)
 		if cerr == nil {
